@@ -132,6 +132,13 @@ def r12_13(ctx) -> None:
                     base = ast.Subscript(value=base.func.value,
                                          slice=ast.Constant(0),
                                          ctx=ast.Load())
+                # a local that names the cache (`prev = before.seqs_cache`)
+                if isinstance(base, ast.Subscript) and isinstance(
+                        base.value, ast.Name):
+                    bv = resolve_local(f, base.value)
+                    if len(bv) == 1 and isinstance(bv[0], ast.Attribute):
+                        base = ast.Subscript(value=bv[0], slice=base.slice,
+                                             ctx=ast.Load())
                 if isinstance(base, ast.Subscript) and \
                         isinstance(base.value, ast.Attribute) and \
                         base.value.attr == 'seqs_cache' and \
@@ -558,6 +565,24 @@ def r16(ctx) -> None:
             R.check(own, f, s, f'writer of {fld}: '
                     f'{f.qualname if f else rel}',
                     f'{fld} written outside SynchronizedMessages')
+    # the order list is always recomputed from the authoritative UID set
+    for f, s_, t, rel in writers_of(ctx.proj, '_sorted'):
+        if f is None or f.cls is not synced or f.name == '__init__' or \
+                not isinstance(s_, ast.Assign):
+            continue
+        v = s_.value
+        from_uids = isinstance(v, ast.Call) and call_name(v) == 'sorted' \
+            and v.args and any(is_attr(x, '_uids', 'self')
+                               for x in ast.walk(v.args[0]))
+        R.check(from_uids, f, s_,
+                f'{f.qualname}: _sorted is recomputed from self._uids',
+                f'`{txt(s_)[:70]}` derives the new order from something '
+                f'other than the UID set itself (the previous order minus '
+                f'the UIDs of THIS call, say): UIDs removed by flushing the '
+                f'deferred set are gone from _uids — their EXPUNGE is sent '
+                f'— but stay in _sorted and _seqs_cache, and every later '
+                f'sequence number is resolved against a numbering the '
+                f'client no longer has', 'sorted(self._uids)')
     for fs in synced.methods.values():
         for f in fs:
             if f.name == '__init__':
